@@ -14,17 +14,22 @@ import (
 	"github.com/ontio/ontology-crypto/ec"
 	"github.com/ontio/ontology-crypto/keypair"
 	osig "github.com/ontio/ontology-crypto/signature"
+	"github.com/polynetwork/poly/account"
 	"github.com/polynetwork/poly/common"
 	"github.com/polynetwork/poly/common/config"
 	"github.com/polynetwork/poly/common/log"
+	"github.com/polynetwork/poly/consensus/vbft"
 	vconfig "github.com/polynetwork/poly/consensus/vbft/config"
 	"github.com/polynetwork/poly/core/ledger"
 	"github.com/polynetwork/poly/core/payload"
 	"github.com/polynetwork/poly/core/types"
 	"github.com/polynetwork/poly/merkle"
 	"github.com/polynetwork/poly/native"
+	_ "github.com/polynetwork/poly/native/service" // registers the real native contracts (cross chain manager, ...)
 	ccm "github.com/polynetwork/poly/native/service/cross_chain_manager"
 	scom "github.com/polynetwork/poly/native/service/cross_chain_manager/common"
+	"github.com/polynetwork/poly/native/service/governance/node_manager"
+	"github.com/polynetwork/poly/native/service/governance/side_chain_manager"
 	"github.com/polynetwork/poly/native/service/utils"
 	"github.com/polynetwork/poly/native/states"
 	"polyverif/internal/hx"
@@ -92,6 +97,7 @@ type lkey struct {
 	priv *ec.PrivateKey
 	pub  keypair.PublicKey
 	id   string
+	addr common.Address
 }
 
 func lsetup() {
@@ -108,7 +114,7 @@ func lsetup() {
 		pk := ec.ConstructPrivateKey(d[:], elliptic.P256())
 		priv := &ec.PrivateKey{Algorithm: ec.ECDSA, PrivateKey: pk}
 		pub := &ec.PublicKey{Algorithm: ec.ECDSA, PublicKey: &pk.PublicKey}
-		lkeys = append(lkeys, &lkey{priv: priv, pub: pub, id: vconfig.PubkeyID(pub)})
+		lkeys = append(lkeys, &lkey{priv: priv, pub: pub, id: vconfig.PubkeyID(pub), addr: types.AddressFromPubKey(pub)})
 	}
 	for i := range ltestAddr {
 		ltestAddr[i] = 0xED
@@ -117,6 +123,7 @@ func lsetup() {
 		s.Register("e", emitRecords)
 		s.Register("ef", emitRecordsFail)
 		s.Register("m", makeTx)
+		s.Register("s", plantGovernance)
 	}
 }
 
@@ -160,6 +167,38 @@ func makeTx(s *native.NativeService) ([]byte, error) {
 	return []byte{1}, nil
 }
 
+const (
+	srcChain = uint64(7) // side chain whose deposits are approved by validator votes (VOTE_ROUTER)
+	dstChain = uint64(2) // target side chain (ETH_ROUTER record)
+)
+
+// plantGovernance writes what ImportOuterTransfer over the vote router reads: the governance view, the peer pool
+// of the current view (the four validators, consensus status) and the two side-chain records, in the node
+// manager's / side-chain manager's own storage format (their exported serializers and PutSideChain).
+func plantGovernance(s *native.NativeService) ([]byte, error) {
+	var view uint32 = 1
+	gv := &node_manager.GovernanceView{View: view, Height: 1, TxHash: common.Uint256{}}
+	sink := common.NewZeroCopySink(nil)
+	gv.Serialization(sink)
+	utils.PutBytes(s, utils.ConcatKey(utils.NodeManagerContractAddress, []byte(node_manager.GOVERNANCE_VIEW)), sink.Bytes())
+	pm := &node_manager.PeerPoolMap{PeerPoolMap: map[string]*node_manager.PeerPoolItem{}}
+	for i, k := range lkeys {
+		pm.PeerPoolMap[k.id] = &node_manager.PeerPoolItem{Index: uint32(i + 1), PeerPubkey: k.id, Address: k.addr, Status: node_manager.ConsensusStatus}
+	}
+	sink = common.NewZeroCopySink(nil)
+	pm.Serialization(sink)
+	utils.PutBytes(s, utils.ConcatKey(utils.NodeManagerContractAddress, []byte(node_manager.PEER_POOL), utils.GetUint32Bytes(view)), sink.Bytes())
+	for _, sc := range []*side_chain_manager.SideChain{
+		{Address: lkeys[0].addr, ChainId: srcChain, Router: utils.VOTE_ROUTER, Name: "votechain", BlocksToWait: 1},
+		{Address: lkeys[0].addr, ChainId: dstChain, Router: utils.ETH_ROUTER, Name: "target", BlocksToWait: 1, CCMCAddress: make([]byte, 20)},
+	} {
+		if err := side_chain_manager.PutSideChain(s, sc); err != nil {
+			return nil, err
+		}
+	}
+	return []byte{1}, nil
+}
+
 func lchainID() uint64 { return config.GetChainIdByNetId(config.DefConfig.P2PNode.NetworkId) }
 
 func lpayload(withCfg bool) []byte {
@@ -183,11 +222,20 @@ func lgenesis() *types.Block {
 }
 
 func lbuildTx(t *ltx) (*types.Transaction, error) {
-	method := t.kind
-	if t.kind == "e" && t.fail {
+	method, addr := t.kind, ltestAddr
+	signer := -1
+	switch {
+	case t.kind == "e" && t.fail:
 		method = "ef"
+	case strings.HasPrefix(t.kind, "v"):
+		// the real cross chain manager entrance, signed by validator i
+		i, err := strconv.Atoi(t.kind[1:])
+		if err != nil || i < 0 || i >= nValidators {
+			return nil, errors.New("bad signer")
+		}
+		signer, method, addr = i, scom.IMPORT_OUTER_TRANSFER_NAME, utils.CrossChainManagerContractAddress
 	}
-	ip := &states.ContractInvokeParam{Address: ltestAddr, Method: method, Args: t.input}
+	ip := &states.ContractInvokeParam{Address: addr, Method: method, Args: t.input}
 	code := common.NewZeroCopySink(nil)
 	ip.Serialization(code)
 	tx := &types.Transaction{Version: types.CURR_TX_VERSION, TxType: types.Invoke, Nonce: t.nonce, ChainID: lchainID(),
@@ -196,7 +244,46 @@ func lbuildTx(t *ltx) (*types.Transaction, error) {
 	if err := tx.Serialization(sink); err != nil {
 		return nil, err
 	}
+	tx, err := types.TransactionFromRawBytes(sink.Bytes())
+	if err != nil || signer < 0 {
+		return tx, err
+	}
+	h := tx.Hash()
+	sg, err := osig.Sign(osig.SHA256withECDSA, lkeys[signer].priv, h[:], nil)
+	if err != nil {
+		return nil, err
+	}
+	raw, err := osig.Serialize(sg)
+	if err != nil {
+		return nil, err
+	}
+	tx.Sigs = []types.Sig{{SigData: [][]byte{raw}, PubKeys: []keypair.PublicKey{lkeys[signer].pub}, M: 1}}
+	sink = common.NewZeroCopySink(nil)
+	if err := tx.Serialization(sink); err != nil {
+		return nil, err
+	}
 	return types.TransactionFromRawBytes(sink.Bytes())
+}
+
+// buildBlockVbft lets the proposer code of the vbft consensus (constructBlock, through the build-tag hook) build
+// and sign the next block on the current tip. The header carries a random nonce, so the block is recorded in
+// the op line as bytes.
+func (f *mledger) buildBlockVbft(b *lblock) (*types.Block, error) {
+	cur := f.lg.GetCurrentBlockHeight()
+	if b.height != cur+1 {
+		return nil, fmt.Errorf("not the next height")
+	}
+	var txs []*types.Transaction
+	for i := range b.txs {
+		tx, err := lbuildTx(&b.txs[i])
+		if err != nil {
+			return nil, err
+		}
+		txs = append(txs, tx)
+	}
+	k := lkeys[int(b.height)%nValidators]
+	acct := &account.Account{PrivateKey: k.priv, PublicKey: k.pub, Address: k.addr, SigScheme: osig.SHA256withECDSA}
+	return vbft.VerifConstructBlock(f.lg, acct, b.height, f.lg.GetCurrentBlockHash(), txs, lpayload(false), b.ts)
 }
 
 // buildBlock builds the next block on the current tip (the harness in the role of the consensus).
@@ -272,6 +359,7 @@ func (f *mledger) open() error {
 		return err
 	}
 	f.lg = lg
+	ledger.DefLedger = lg // SideChain (de)serialization consults the default ledger for a fork height
 	return nil
 }
 
@@ -308,7 +396,7 @@ func parseLTxs(tok string) ([]ltx, bool) {
 	var out []ltx
 	for _, t := range strings.Split(tok, "/") {
 		f := strings.Split(t, ".")
-		if len(f) != 5 || (f[0] != "e" && f[0] != "m") {
+		if len(f) != 5 || !(f[0] == "e" || f[0] == "m" || f[0] == "s" || (len(f[0]) == 2 && f[0][0] == 'v')) {
 			return nil, false
 		}
 		n, err := strconv.ParseUint(f[2], 10, 32)
@@ -363,6 +451,22 @@ func bproofErr(err error) string {
 	return genErr(err)
 }
 
+// proveOther re-verifies an accepted proof against roots that differ from the committed one (one flipped
+// bit, the zero hash); returns the hex of a root that is wrongly accepted, "" when all are rejected.
+func proveOther(proof, root []byte) string {
+	f := append([]byte{}, root...)
+	f[13] ^= 0x20
+	for _, o := range [][]byte{f, make([]byte, 32)} {
+		if bytes.Equal(o, root) {
+			continue
+		}
+		if _, err := merkle.MerkleProve(proof, o); err == nil {
+			return hx.Hex(o)
+		}
+	}
+	return ""
+}
+
 // committed returns the records block `height` committed (successful transactions, in order).
 func (f *mledger) committed(height int) []lrec {
 	if height < 1 || height > len(f.blocks) {
@@ -402,23 +506,49 @@ func (f *mledger) Exec(r *hx.Run, op []string) string {
 		return "bad-op:no-ledger"
 	}
 	switch op[0] {
-	case "block":
+	case "block", "blockraw":
 		if len(op) != 5 {
 			return "bad-op"
 		}
 		h, _ := strconv.ParseUint(op[1], 10, 32)
-		ts, _ := strconv.ParseUint(op[2], 10, 32)
 		txs, ok := parseLTxs(op[4])
 		if !ok {
 			return "bad-op"
 		}
-		b := &lblock{height: uint32(h), ts: uint32(ts), txs: txs}
-		blk, err := f.buildBlock(b)
-		if err != nil {
-			return "bad-op:" + err.Error()
-		}
-		if hh := blk.Hash(); hx.Hex(hh[:]) != op[3] {
-			return "bad-op:block-hash"
+		var b *lblock
+		var blk *types.Block
+		if op[0] == "block" {
+			ts, _ := strconv.ParseUint(op[2], 10, 32)
+			b = &lblock{height: uint32(h), ts: uint32(ts), txs: txs}
+			var err error
+			if blk, err = f.buildBlock(b); err != nil {
+				return "bad-op:" + err.Error()
+			}
+			if hh := blk.Hash(); hx.Hex(hh[:]) != op[3] {
+				return "bad-op:block-hash"
+			}
+		} else {
+			// a block built and signed by the vbft proposer code, recorded as bytes
+			blk = &types.Block{}
+			if err := blk.Deserialization(common.NewZeroCopySource(hx.UnHex(op[3]))); err != nil {
+				return "bad-op:block-bytes"
+			}
+			if hh := blk.Hash(); hx.Hex(hh[:]) != op[2] || blk.Header.Height != uint32(h) || len(blk.Transactions) != len(txs) {
+				return "bad-op:block-hash"
+			}
+			for i := range txs {
+				tx, err := lbuildTx(&txs[i])
+				if err != nil || tx.Hash() != blk.Transactions[i].Hash() {
+					return "bad-op:block-txs"
+				}
+			}
+			b = &lblock{height: uint32(h), ts: blk.Header.Timestamp, txs: txs}
+			// what the proposer must have put into the header
+			want, _ := f.lg.GetCrossStateRoot(uint32(h) - 1)
+			if blk.Header.CrossStateRoot != want {
+				r.Viol(fmt.Sprintf("C08:vbft-header-cross-root-differs:height=%d", h),
+					fmt.Sprintf("constructBlock put CrossStateRoot %x into header %d, the stored cross-state root of block %d is %x", blk.Header.CrossStateRoot[:], h, h-1, want[:]))
+			}
 		}
 		res, err := f.lg.ExecuteBlock(blk)
 		if err != nil {
@@ -430,6 +560,9 @@ func (f *mledger) Exec(r *hx.Run, op []string) string {
 			err = f.lg.AddBlock(blk, res.MerkleRoot)
 		}
 		if err != nil {
+			if op[0] == "blockraw" {
+				r.Viol(fmt.Sprintf("C08:vbft-built-block-refused:height=%d", h), "the ledger refuses a block built by the proposer code on its own tip: "+err.Error())
+			}
 			return "err-commit:" + err.Error()
 		}
 		f.blocks = append(f.blocks, b)
@@ -502,6 +635,12 @@ func (f *mledger) Exec(r *hx.Run, op []string) string {
 			}
 		}
 		v, e := merkle.MerkleProve(proof, root[:])
+		if e == nil {
+			if e2 := proveOther(proof, root[:]); e2 != "" {
+				r.Viol(fmt.Sprintf("C08:served-cross-proof-verifies-against-another-root:height=%d", h),
+					fmt.Sprintf("the cross-state proof served for key %x of block %d, accepted for the committed root %x, is also accepted for root %s", key, h, root[:], e2))
+			}
+		}
 		if rec != nil && (e != nil || !bytes.Equal(v, rec.val)) {
 			r.Viol(fmt.Sprintf("C08:served-cross-proof-does-not-verify:height=%d", h),
 				fmt.Sprintf("the proof served for key %x of block %d does not verify against the committed cross-state root %x (err=%v, value=%x, record=%x)", key, h, root[:], e, v, rec.val))
@@ -524,6 +663,12 @@ func (f *mledger) Exec(r *hx.Run, op []string) string {
 				return "err-header"
 			}
 			v, e := merkle.MerkleProve(proof, hdr.BlockRoot[:])
+			if e == nil {
+				if e2 := proveOther(proof, hdr.BlockRoot[:]); e2 != "" {
+					r.Viol(fmt.Sprintf("C08:served-block-proof-verifies-against-another-root:h=%d:r=%d", h, rr),
+						fmt.Sprintf("the block proof served for (%d,%d), accepted for BlockRoot %x, is also accepted for root %s", h, rr, hdr.BlockRoot[:], e2))
+				}
+			}
 			if e != nil || !bytes.Equal(v, f.hashes[h][:]) {
 				r.Viol(fmt.Sprintf("C08:served-block-proof-does-not-verify:h=%d:r=%d", h, rr),
 					fmt.Sprintf("the block proof served for (%d,%d) does not verify against BlockRoot %x of header %d (err=%v, value=%x, block hash %x)", h, rr, hdr.BlockRoot[:], rr, e, v, f.hashes[h][:]))
@@ -546,7 +691,7 @@ func (f *mledger) Gen(r *hx.Run) {
 	r.Rule("chains of committed blocks on a real ledger, 0..N cross-chain records per block (several transactions per block, failing transactions, the same record twice in one block, empty and long records, records written by the real MakeTransaction), every record's served proof and every (h,r) block proof, reopen in the middle; distinct non-trivial = distinct (records in block, record index) and (h, r) pairs")
 	lsetup()
 	nonce := uint32(1)
-	chain := func(name string, nblocks int, recCount func(b int) int) {
+	chain := func(name string, nblocks int, recCount func(b int) int, reopenMid bool, sweep bool, raw bool, entrance bool) {
 		r.Case(name)
 		g := lgenesis()
 		gh := g.Hash()
@@ -557,11 +702,90 @@ func (f *mledger) Gen(r *hx.Run) {
 		}
 		var all []placed
 		ctr := 0
+		// votes cast so far for a pending deposit (entrance path): the deposit and who voted
+		type deposit struct {
+			height uint32
+			p      *scom.MakeTxParam
+			voted  []int
+		}
+		var pending *deposit
+		vote := func(d *deposit, i int) ltx {
+			nonce++
+			ep := &scom.EntranceParam{SourceChainID: srcChain, Height: d.height, RelayerAddress: lkeys[i].addr[:]}
+			ex := common.NewZeroCopySink(nil)
+			d.p.Serialization(ex)
+			ep.Extra = ex.Bytes()
+			in := common.NewZeroCopySink(nil)
+			ep.Serialization(in)
+			t := ltx{kind: fmt.Sprintf("v%d", i), nonce: nonce, input: in.Bytes()}
+			fresh := true
+			for _, v := range d.voted {
+				if v == i {
+					fresh = false
+				}
+			}
+			if fresh {
+				d.voted = append(d.voted, i)
+			}
+			if fresh && len(d.voted) == 3 { // (2*4+2)/3 = 3 distinct validators: this vote makes the target-chain transaction
+				tx, err := lbuildTx(&t)
+				if err != nil {
+					panic(err)
+				}
+				th := tx.Hash()
+				mv := &scom.ToMerkleValue{TxHash: th.ToArray(), FromChainID: srcChain, MakeTxParam: d.p}
+				ms := common.NewZeroCopySink(nil)
+				mv.Serialization(ms)
+				key := utils.ConcatKey(utils.CrossChainManagerContractAddress, []byte(scom.REQUEST), utils.GetUint64Bytes(dstChain), mv.TxHash)
+				t.recs = []lrec{{key: key, val: ms.Bytes()}}
+			}
+			return t
+		}
 		for b := 1; b <= nblocks; b++ {
 			nrec := recCount(b)
 			var txs []ltx
 			var vals [][]byte
 			left := nrec
+			if entrance && b == 1 {
+				nonce++
+				txs = append(txs, ltx{kind: "s", nonce: nonce})
+			}
+			if entrance && b >= 2 {
+				// deposits approved by validator votes through the real ImportOuterTransfer
+				for left > 0 && r.Rng.Chance(2, 3) {
+					d := pending
+					pending = nil
+					if d == nil {
+						d = &deposit{height: uint32(100 + b*10 + left), p: &scom.MakeTxParam{TxHash: r.Rng.Bytes(32), CrossChainID: r.Rng.Bytes(8),
+							FromContractAddress: r.Rng.Bytes(20), ToChainID: dstChain, ToContractAddress: r.Rng.Bytes(20), Method: "unlock", Args: r.Rng.Bytes(r.Rng.Intn(60))}}
+					}
+					order := r.Rng.Perm(nValidators)
+					for _, i := range order {
+						if len(d.voted) >= 3 {
+							break
+						}
+						if len(d.voted) == 1 && r.Rng.Chance(1, 4) {
+							txs = append(txs, vote(d, d.voted[0])) // the same validator votes twice: counted once
+						}
+						t := vote(d, i)
+						txs = append(txs, t)
+						if len(t.recs) > 0 {
+							all = append(all, placed{b, t.recs[0].key})
+							vals = append(vals, t.recs[0].val)
+						}
+					}
+					if r.Rng.Chance(1, 3) {
+						txs = append(txs, vote(d, order[nValidators-1])) // a late vote after the deposit is done: no second record
+					}
+					left--
+				}
+				if pending == nil && r.Rng.Chance(1, 3) {
+					// a deposit that gets two votes in this block and the deciding one in a later block
+					pending = &deposit{height: uint32(5000 + b), p: &scom.MakeTxParam{TxHash: r.Rng.Bytes(32), CrossChainID: r.Rng.Bytes(8),
+						FromContractAddress: r.Rng.Bytes(20), ToChainID: dstChain, ToContractAddress: r.Rng.Bytes(20), Method: "unlock", Args: r.Rng.Bytes(9)}}
+					txs = append(txs, vote(pending, 0), vote(pending, 2))
+				}
+			}
 			for left > 0 || (len(txs) == 0 && r.Rng.Chance(1, 3)) {
 				k := 1 + r.Rng.Intn(3)
 				if k > left {
@@ -628,14 +852,23 @@ func (f *mledger) Gen(r *hx.Run) {
 				}
 			}
 			lb := &lblock{height: uint32(b), ts: uint32(1000 + 10*b), txs: txs}
-			blk, err := f.buildBlock(lb)
-			if err != nil {
-				panic(err)
+			if raw {
+				blk, err := f.buildBlockVbft(lb)
+				if err != nil {
+					panic(err)
+				}
+				bh := blk.Hash()
+				r.Do(fmt.Sprintf("blockraw %d %s %s %s", b, hx.Hex(bh[:]), hx.Hex(blk.ToArray()), txsToken(txs)))
+			} else {
+				blk, err := f.buildBlock(lb)
+				if err != nil {
+					panic(err)
+				}
+				bh := blk.Hash()
+				r.Do(fmt.Sprintf("block %d %d %s %s", b, lb.ts, hx.Hex(bh[:]), txsToken(txs)))
 			}
-			bh := blk.Hash()
-			r.Do(fmt.Sprintf("block %d %d %s %s", b, lb.ts, hx.Hex(bh[:]), txsToken(txs)))
 			r.Hist(fmt.Sprintf("records.%s", sizeClass(nrec)))
-			if b == nblocks/2 {
+			if reopenMid && b == nblocks/2 {
 				r.Do("reopen")
 			}
 			// proofs of this block's records right after the commit
@@ -676,6 +909,27 @@ func (f *mledger) Gen(r *hx.Run) {
 				r.Do(fmt.Sprintf("xproof %d %s", 1+r.Rng.Intn(nblocks), hx.Hex(p.key)))
 			}
 		}
+		if sweep {
+			// one running node serving block proofs for many (h, r) pairs in varying orders: every ordered
+			// pair of root heights (r1, r2), then descending and interleaved sweeps
+			for r1 := 1; r1 <= nblocks; r1++ {
+				for r2 := 1; r2 <= nblocks; r2++ {
+					r.Do(fmt.Sprintf("bproof %d %d", r.Rng.Intn(r1), r1))
+					r.Do(fmt.Sprintf("bproof %d %d", r.Rng.Intn(r2), r2))
+					r.Do(fmt.Sprintf("bproof %d %d", r2-1, r2))
+				}
+			}
+			for rr := nblocks; rr >= 1; rr-- {
+				for h := rr - 1; h >= 0; h-- {
+					r.Do(fmt.Sprintf("bproof %d %d", h, rr))
+				}
+			}
+			for h := 0; h < nblocks; h++ {
+				for rr := h + 1; rr <= nblocks; rr++ {
+					r.Do(fmt.Sprintf("bproof %d %d", h, rr))
+				}
+			}
+		}
 		r.Do(fmt.Sprintf("bproof %d %d", nblocks, nblocks))
 		r.Do(fmt.Sprintf("bproof %d %d", nblocks+1, nblocks+2))
 		r.Do(fmt.Sprintf("bproof %d %d", 0, nblocks+1))
@@ -683,15 +937,18 @@ func (f *mledger) Gen(r *hx.Run) {
 		r.Do("reopen")
 		r.Do(fmt.Sprintf("bproof %d %d", 0, nblocks))
 	}
-	chain("chain-small", r.Pick(14, 40), func(b int) int { return r.Rng.Intn(10) })
-	chain("chain-sizes", r.Pick(20, 130), func(b int) int { return b - 1 }) // every record count 0..N once
+	chain("chain-small", r.Pick(14, 40), func(b int) int { return r.Rng.Intn(10) }, true, false, false, false)
+	chain("chain-sizes", r.Pick(20, 130), func(b int) int { return b - 1 }, true, false, false, false) // every record count 0..N once
+	chain("chain-orders", r.Pick(19, 70), func(b int) int { return r.Rng.Intn(3) }, false, true, true, false)
+	// headers built by the vbft proposer code; deposits entering through the real ImportOuterTransfer (vote router)
+	chain("chain-entrance", r.Pick(16, 60), func(b int) int { return r.Rng.Intn(6) }, true, false, true, true)
 	if r.Thorough() {
 		chain("chain-long", 200, func(b int) int {
 			if b%10 == 0 {
 				return 40 + r.Rng.Intn(31)
 			}
 			return r.Rng.Intn(6)
-		})
+		}, true, false, true, false)
 	}
 	f.Reset(r)
 }
